@@ -10,7 +10,7 @@
 //@ end
 //@ post
 /// the parser's cursor invariant between grammar functions: the cursor is on a token of the list
-spec fn cursor_ok(p: Parser) -> bool { p.pos < p.token_list@.len() && p.token_list@.len() < usize::MAX - 2 }
+spec fn cursor_ok(p: Parser) -> bool { p.pos < p.token_list@.len() && p.token_list@.len() < usize::MAX - 4 }
 //@ end
 //@ contract Parser::peek_expect ret=r
     ensures r == (self.curr_tkn.kind == knd),
@@ -50,12 +50,12 @@ spec fn cursor_ok(p: Parser) -> bool { p.pos < p.token_list@.len() && p.token_li
         // `//` is the documented synonym of `|`: wherever `|` may follow, `//` may
         /*#follow.a_double_slash_may_follow_a_deletion_output C13*/ r matches Err(RuleSyntaxError::DeleteErr(t)) ==> t.kind != TokenKind::DubSlash,
         /*#follow.a_double_slash_may_follow_a_metathesis_output C13*/ r matches Err(RuleSyntaxError::MetathErr(t)) ==> t.kind != TokenKind::DubSlash,
-        cursor_loose(*final(self)) && final(self).token_list == old(self).token_list,
-        r matches Err(e) ==> !(e is ExpectedEndLine) && !(e is ExpectedArrow),
+        /*#follow.get_output_keeps_the_cursor_and_the_list C02,C13*/ cursor_loose(*final(self)) && final(self).token_list == old(self).token_list,
+        /*#follow.get_output_raises_no_rule_level_error C13*/ r matches Err(e) ==> !(e is ExpectedEndLine) && !(e is ExpectedArrow),
 //@ end
 //@ loop Parser::get_output 0
     invariant self.pos < self.token_list@.len() || self.curr_tkn.kind == TokenKind::Eol, self.token_list == old(self).token_list,
-        self.token_list@.len() < usize::MAX - 2, self.pos <= self.token_list@.len(),
+        self.token_list@.len() < usize::MAX - 4, self.pos <= self.token_list@.len(),
 //@ end
 //@ proof_start Parser::get_output
     axiom_token_clone();
@@ -74,12 +74,12 @@ spec fn ends_line(k: TokenKind) -> bool { k == TokenKind::Eol || k == TokenKind:
 /// the cursor is on a token of the list and `curr_tkn` is that token; the list ends with the lexer's end-of-line token
 /// (so a token that is not Eol is never the last one) -- the state in which the lexer hands a line to Parser::rule
 spec fn synced(p: Parser) -> bool {
-    &&& p.pos < p.token_list@.len() && p.token_list@.len() < usize::MAX - 2
+    &&& p.pos < p.token_list@.len() && p.token_list@.len() < usize::MAX - 4
     &&& p.curr_tkn == p.token_list@[p.pos as int]
     &&& p.token_list@[p.token_list@.len() - 1].kind == TokenKind::Eol
 }
 spec fn cursor_loose(p: Parser) -> bool {
-    (p.pos < p.token_list@.len() || p.curr_tkn.kind == TokenKind::Eol) && p.pos <= p.token_list@.len() && p.token_list@.len() < usize::MAX - 2
+    (p.pos < p.token_list@.len() || p.curr_tkn.kind == TokenKind::Eol) && p.pos <= p.token_list@.len() && p.token_list@.len() < usize::MAX - 4
 }
 //@ end
 //@ contract Rule::new ret=r
@@ -98,10 +98,12 @@ spec fn cursor_loose(p: Parser) -> bool {
         (r is Ok && synced(*old(self))) ==> synced(*final(self)),
 //@ end
 //@ contract Parser::get_env ret=r
+    // the precondition and the three clauses after the first are PROVED for the real body of get_env in kernel `envlist`
+    // (there with get_envs / get_env_elements opaque); only "it is a function of the parser state" is assumed here
+    requires 1 <= old(self).pos, cursor_loose(*old(self)),
     ensures (r, *final(self)) == env_spec(*old(self)),
-        // ASSUMED about the opaque environment parser: cursor stays inside the list (or on the synthetic end of line), list untouched
-        cursor_loose(*final(self)) && final(self).token_list == old(self).token_list,
-        // ASSUMED (read off the code: ExpectedArrow / ExpectedEndLine are constructed in Parser::rule only)
+        r is Ok ==> cursor_loose(*final(self)),
+        final(self).token_list == old(self).token_list,
         r matches Err(e) ==> !(e is ExpectedEndLine) && !(e is ExpectedArrow),
 //@ end
 //@ contract Parser::get_context ret=r
@@ -109,7 +111,7 @@ spec fn cursor_loose(p: Parser) -> bool {
     ensures
         /*#follow.a_slash_opens_the_context C13*/ old(self).curr_tkn.kind == TokenKind::Slash ==> (exists|p: Parser| advanced(*old(self), p) && (r, *final(self)) == #[trigger] env_spec(p)),
         old(self).curr_tkn.kind != TokenKind::Slash ==> (r matches Ok(v) && v@.len() == 0 && *final(self) == *old(self)),
-        cursor_loose(*final(self)) && final(self).token_list == old(self).token_list,
+        (r is Ok ==> cursor_loose(*final(self))) && final(self).token_list == old(self).token_list,
         r matches Err(e) ==> !(e is ExpectedEndLine) && !(e is ExpectedArrow),
 //@ end
 //@ contract Parser::get_except_block ret=r
@@ -119,7 +121,7 @@ spec fn cursor_loose(p: Parser) -> bool {
         /*#follow.pipe_and_double_slash_open_the_same_exception_block C13*/ (old(self).curr_tkn.kind == TokenKind::Pipe || old(self).curr_tkn.kind == TokenKind::DubSlash)
             ==> (exists|p: Parser| advanced(*old(self), p) && (r, *final(self)) == #[trigger] env_spec(p)),
         !(old(self).curr_tkn.kind == TokenKind::Pipe || old(self).curr_tkn.kind == TokenKind::DubSlash) ==> (r matches Ok(v) && v@.len() == 0 && *final(self) == *old(self)),
-        cursor_loose(*final(self)) && final(self).token_list == old(self).token_list,
+        (r is Ok ==> cursor_loose(*final(self))) && final(self).token_list == old(self).token_list,
         r matches Err(e) ==> !(e is ExpectedEndLine) && !(e is ExpectedArrow),
 //@ end
 //@ attr Parser::get_input
